@@ -57,7 +57,7 @@ def check_result(r, R, spaces, sig, n, tol=0.0, exports=True, what='result'):
     except (AssertionError, YastnError) as e:
         return f"{what}: is_consistent() fails: {e!r}"
     try:
-        D = MD.dense(r, spaces)
+        D, own = MD.dense(r, spaces, return_own=True)
     except MD.ShadowError as e:
         return f"{what}: legs do not match the documented result legs: {e}"
     if not same(D, R, tol):
@@ -66,13 +66,13 @@ def check_result(r, R, spaces, sig, n, tol=0.0, exports=True, what='result'):
         return (f"{what}: dense values differ from the NumPy reference at {len(bad)} positions, "
                 f"first {i}: got {D[i] if len(bad) else '?'} expected {R[i] if len(bad) else '?'}")
     if exports and not r.isdiag:
-        ld = legs_dict(r.config, sig, spaces)
         try:
-            E = r.to_numpy(legs=ld, native=True) if r.ndim_n else r.to_numpy()
+            E = r.to_numpy(native=True)
         except Exception as e:
-            return f"{what}: to_numpy(legs=expected legs) raised {type(e).__name__}: {e}"
-        if not np.array_equal(E, D):
-            return f"{what}: to_numpy disagrees with block access (max diff {np.max(np.abs(E - D)) if E.shape == D.shape else 'shape'})"
+            return f"{what}: to_numpy() raised {type(e).__name__}: {e}"
+        Dr = MD.restrict(D, spaces, own)
+        if E.shape != Dr.shape or not np.array_equal(E, Dr):
+            return f"{what}: to_numpy disagrees with block access (shapes {E.shape} vs {Dr.shape})"
     return None
 
 
